@@ -12,6 +12,10 @@ open Cog.IR
 def danglingWitness : Schemas :=
   [{ pkg := "p", objects := [("D", { name := "D", ty := .ref "p" "Missing" {}, selfPkg := "p", selfName := "D" })] }]
 
+/-- `p.A = ref p.A` : an alias cycle (`Schemas.ResolveToType` recurses without a visited set) -/
+def cycleWitness : Schemas :=
+  [{ pkg := "p", objects := [("A", { name := "A", ty := .ref "p" "A" {}, selfPkg := "p", selfName := "A" })] }]
+
 /-- `p.K = "x"` (constant), `p.S = { k?: ref p.K }` : the optional field `k` gets an option -/
 def optionalConstRefWitness : Schemas :=
   [{ pkg := "p", objects := [
